@@ -17,11 +17,14 @@ Section C.
   Variable srcs : list N.
   Variable src_local : N -> bool.
   Variable veqb : V -> V -> bool.
+  Variable ov_src : N.
   Hypothesis veqb_refl : forall v, veqb v v = true.
+  Hypothesis keqb_refl : forall k, keqb k k = true.
 
-  Notation run_calls' := (run_calls keqb kleb lower is_none is_empty known parse srcs src_local veqb).
+  Notation run_calls' := (run_calls keqb kleb lower is_none is_empty known parse srcs src_local veqb ov_src).
   Notation resolve' := (resolve keqb kleb lower is_none known parse srcs src_local).
-  Notation apply_upd' := (apply_upd (K := K) is_empty).
+  Notation apply_upd' := (apply_upd keqb is_empty ov_src).
+  Notation hst' := (hst K R).
   Notation call' := (call K R V).
 
   (* running "or" *)
@@ -65,49 +68,86 @@ Section C.
   (* a call that leaves the raw configuration as it was (e.g. the calculation graph's ConfigUpdate message carrying what
      Felix already has, or the same UpdateFrom again) changes no field and returns no error, provided the previous
      resolve succeeded *)
-  Lemma unchanged_cfg_unchanged_fields : forall fixed sorted c st cerr u t,
-    resolve' fixed sorted c = Some st -> apply_upd' c u = c ->
-    match run_calls' fixed sorted c (Some st) cerr (u :: t) with
+  Lemma unchanged_cfg_unchanged_fields : forall fixed sorted (h : hst') st cerr u t,
+    resolve' fixed sorted (fst h) = Some st -> fst (apply_upd' h u) = fst h ->
+    match run_calls' fixed sorted h (Some st) cerr (u :: t) with
     | k :: _ => k_changed k = Some [] /\ k_err k = false /\ k_res k = Some st
     | [] => False
     end.
   Proof.
-    intros fixed sorted c st cerr u t Hr Hu. simpl. rewrite Hu, Hr. simpl. now rewrite changed_same.
+    intros fixed sorted h st cerr u t Hr Hu. simpl. rewrite Hu, Hr. simpl. now rewrite changed_same.
   Qed.
 
-  Lemma aset_idem : forall B (s : N) (v : B) l, aset N.eqb s v (aset N.eqb s v l) = aset N.eqb s v l.
+  Lemma aset_idem : forall A B (eqb : A -> A -> bool) (s : A) (v : B) l, eqb s s = true ->
+    aset eqb s v (aset eqb s v l) = aset eqb s v l.
   Proof.
-    induction l as [|[s' v'] l IH]; simpl.
-    - now rewrite N.eqb_refl.
-    - destruct (s =? s') eqn:E; simpl.
-      + now rewrite N.eqb_refl.
+    intros A B eqb s v l Hr. induction l as [|[s' v'] l IH]; simpl.
+    - now rewrite Hr.
+    - destruct (eqb s s') eqn:E; simpl.
+      + now rewrite Hr.
       + now rewrite E, IH.
   Qed.
 
-  Lemma apply_upd_idem : forall c u, apply_upd' (apply_upd' c u) u = apply_upd' c u.
-  Proof. intros c [s kvs|c']; simpl; auto. unfold store. apply aset_idem. Qed.
+  Lemma apply_upd_idem : forall (h : hst') u, apply_upd' (apply_upd' h u) u = apply_upd' h u.
+  Proof.
+    intros [c ov] [s kvs|c'|k v]; simpl; auto.
+    - unfold store. now rewrite aset_idem by apply N.eqb_refl.
+    - rewrite (aset_idem _ _ keqb k v ov (keqb_refl k)). unfold store. now rewrite aset_idem by apply N.eqb_refl.
+  Qed.
 
   (* the same call twice in a row: the second one reports no change *)
-  Lemma repeat_update_unchanged : forall fixed sorted c prev cerr u t st,
-    resolve' fixed sorted (apply_upd' c u) = Some st ->
-    match run_calls' fixed sorted c prev cerr (u :: u :: t) with
+  Lemma repeat_update_unchanged : forall fixed sorted (h : hst') prev cerr u t st,
+    resolve' fixed sorted (fst (apply_upd' h u)) = Some st ->
+    match run_calls' fixed sorted h prev cerr (u :: u :: t) with
     | _ :: k2 :: _ => k_changed k2 = Some [] /\ k_err k2 = false
     | _ => False
     end.
   Proof.
-    intros fixed sorted c prev cerr u t st Hr. simpl. rewrite apply_upd_idem, Hr. simpl. now rewrite changed_same.
+    intros fixed sorted h prev cerr u t st Hr. simpl. rewrite apply_upd_idem, Hr. simpl. now rewrite changed_same.
   Qed.
 
-  Lemma res_cerr_indep : forall fixed sorted t c p a a',
-    map (@k_res K R V) (run_calls' fixed sorted c p a t) = map (@k_res K R V) (run_calls' fixed sorted c p a' t).
+  Lemma res_cerr_indep : forall fixed sorted t (h : hst') p a a',
+    map (@k_res K R V) (run_calls' fixed sorted h p a t) = map (@k_res K R V) (run_calls' fixed sorted h p a' t).
   Proof. intros fixed sorted t. induction t as [|u t IH]; intros; simpl; auto. f_equal. apply IH. Qed.
 
-  (* UpdateFromConfigUpdate: the message alone decides, whatever was loaded before *)
-  Lemma config_update_decides : forall fixed sorted c1 c2 p1 p2 e1 e2 msg t,
-    match run_calls' fixed sorted c1 p1 e1 (UAll msg :: t), run_calls' fixed sorted c2 p2 e2 (UAll msg :: t) with
+  (* UpdateFromConfigUpdate: the message alone decides, whatever sources were loaded before *)
+  Lemma config_update_decides : forall fixed sorted c1 c2 ov p1 p2 e1 e2 msg t,
+    match run_calls' fixed sorted (c1, ov) p1 e1 (UAll msg :: t), run_calls' fixed sorted (c2, ov) p2 e2 (UAll msg :: t) with
     | k1 :: r1, k2 :: r2 => k_res k1 = resolve' fixed sorted msg /\ k_res k1 = k_res k2 /\ k_err k1 = k_err k2
                             /\ map (@k_res K R V) r1 = map (@k_res K R V) r2
     | _, _ => False
     end.
   Proof. intros. simpl. repeat split; auto. apply res_cerr_indep. Qed.
+
+  (* ---- the resolved configuration is a function of the CURRENT sources, whatever the history ---- *)
+  Notation final_hst' := (final_hst keqb is_empty ov_src).
+
+  (* the last call's result is resolve() of the sources as they are after the whole history: nothing else of the history
+     enters (in particular not the fields left behind by an earlier resolve that failed half-way) *)
+  Lemma history_last : forall fixed sorted us (h : hst') prev cerr d, us <> [] ->
+    k_res (last (run_calls' fixed sorted h prev cerr us) d) = resolve' fixed sorted (fst (final_hst' h us)).
+  Proof.
+    intros fixed sorted us. induction us as [|u t IH]; intros h prev cerr d Hne; [congruence|].
+    destruct t as [|u2 t2]; [reflexivity|].
+    change (run_calls' fixed sorted h prev cerr (u :: u2 :: t2)) with
+      (mk_call (res_err (resolve' fixed sorted (fst (apply_upd' h u))))
+               (cerr || res_err (resolve' fixed sorted (fst (apply_upd' h u))))
+               (match prev, resolve' fixed sorted (fst (apply_upd' h u)) with
+                | Some p, Some st => Some (changed_names keqb kleb lower known veqb p st) | _, _ => None end)
+               (resolve' fixed sorted (fst (apply_upd' h u)))
+       :: run_calls' fixed sorted (apply_upd' h u) (resolve' fixed sorted (fst (apply_upd' h u)))
+            (cerr || res_err (resolve' fixed sorted (fst (apply_upd' h u)))) (u2 :: t2)).
+    remember (u2 :: t2) as t eqn:Et.
+    assert (Hl : forall (x : call') l d0, l <> [] -> last (x :: l) d0 = last l d0).
+    { intros x l d0 Hl. destruct l; [congruence|reflexivity]. }
+    rewrite Hl.
+    - rewrite IH by (subst t; discriminate). reflexivity.
+    - subst t. simpl. discriminate.
+  Qed.
+
+  (* two histories (of any length, with any failed calls in between) that end with the same sources give the same result *)
+  Lemma same_final_sources_same_result : forall fixed sorted us1 us2 (h1 h2 : hst') p1 p2 e1 e2 d,
+    us1 <> [] -> us2 <> [] -> fst (final_hst' h1 us1) = fst (final_hst' h2 us2) ->
+    k_res (last (run_calls' fixed sorted h1 p1 e1 us1) d) = k_res (last (run_calls' fixed sorted h2 p2 e2 us2) d).
+  Proof. intros. rewrite !history_last by assumption. congruence. Qed.
 End C.
